@@ -26,7 +26,7 @@ use std::fmt::Debug;
 use std::net::{Ipv4Addr, Ipv6Addr};
 use std::time::Duration;
 
-fn digest(b: &[u8]) -> u32 {
+pub(crate) fn digest(b: &[u8]) -> u32 {
     let mut h: u32 = 0x811c_9dc5;
     for x in b {
         h ^= *x as u32;
@@ -36,7 +36,7 @@ fn digest(b: &[u8]) -> u32 {
 }
 
 /// Variant name of a message from its Debug form (evidence / finding keys only).
-fn kind_of(dbg: &str) -> String {
+pub(crate) fn kind_of(dbg: &str) -> String {
     // first two constructor names: "ResponseNextTx.Some", "RollForward.HeaderContent", "KeepAlive"
     let toks: Vec<&str> = dbg
         .split(|c: char| !(c.is_alphanumeric() || c == '_'))
@@ -89,7 +89,7 @@ fn n2_point(rng: &mut Rng, size: u8) -> n2::Point {
     }
 }
 
-trait Gen: Sized {
+pub(crate) trait Gen: Sized {
     fn gen(rng: &mut Rng, size: u8) -> Self;
 }
 
@@ -362,7 +362,7 @@ impl Gen for old::localstate::Message {
         }
     }
 }
-type LocalTxMsg = old::localtxsubmission::Message<old::localtxsubmission::EraTx, old::localtxsubmission::TxValidationError>;
+pub(crate) type LocalTxMsg = old::localtxsubmission::Message<old::localtxsubmission::EraTx, old::localtxsubmission::TxValidationError>;
 impl Gen for LocalTxMsg {
     fn gen(rng: &mut Rng, size: u8) -> Self {
         use old::localtxsubmission::{ApplyTxError, ConwayLedgerFailure, EraTx, Message as M, ShelleyBasedEra, TxValidationError};
@@ -413,7 +413,7 @@ const N2_PROTOS: [(&str, u16); 6] = [
     ("peersharing", n2::peersharing::CHANNEL_ID),
 ];
 
-fn gen_any_message(chan: u16, rng: &mut Rng, size: u8) -> AnyMessage {
+pub(crate) fn gen_any_message(chan: u16, rng: &mut Rng, size: u8) -> AnyMessage {
     match chan {
         n2::handshake::CHANNEL_ID => {
             use n2::handshake::{n2n::VersionData, Message as M, RefuseReason as R, VersionTable};
